@@ -460,3 +460,155 @@ contract(F, 'NoteEvent.play', props=('C14', 'C17'), params={'self': 'self'},
          fields={'NoteEvent': {}}, class_modules={'NoteEvent': F, 'ServerKeys': F, 'PitchKeys': F}, native=False,
          note='two message parameters stand for the parameter list; key resolution, parameter selection and the '
               'conversions are opaque here (their own contracts / the bounded driver)')
+
+
+# ---- ServerKeys._get_msg_params: "the event's value for each control of the instrument that the event
+#      defines" (C14) -----------------------------------------------------------------------------------------
+from vf.pyvc.spec import Loop
+HASK = z3.Function('event_defines', VV.Any, z3.BoolSort())
+RESK = z3.Function('event_value_of', VV.Any, VV.Any)
+CTL = z3.Array('control_names.items', z3.IntSort(), VV.Any)
+
+
+def names_seq(tag):
+    n = z3.Int('control_names.len' + tag)
+    return V('seq', extra={'len': n, 'facts': [n >= 0], 'names': tag or 'all',
+                           'get': (lambda eng_, i, st_: V('any', z3.Select(CTL, i)))})
+
+
+def mp_call(state):
+    def h(eng, f, args, kwargs, st, node):
+        if is_ev(f) and len(args) == 1:
+            a = args[0]
+            if a.k == 'str' and a.py is not None:
+                k = a.py
+                st.trace.append(('resolve', k))
+                if k == 'msg_params':
+                    return [(st, vlist([]) if state == 'fresh' else V('obj', oid='cached-params', extra={'truth': z3.BoolVal(True)}))]
+                if k == 'is_playing':
+                    return [(st, vbool(z3.Bool('res.is_playing')))]
+                if k == 'synth_lib':
+                    return [(st, V('obj', oid='synth_lib'))]
+                return [(st, V('obj', oid='res.' + k))]
+            if a.k == 'any':
+                return [(st, V('any', RESK(a.z)))]
+        return None
+    return h
+
+
+def mp_contains(eng, container, item, st, node):
+    if is_ev(container) and item.k == 'any':
+        return HASK(item.z)
+    return None
+
+
+def mp_getattr(desc_kind):
+    def h(eng, obj, name, st, node):
+        if obj.k == 'obj' and obj.oid == 'synth_lib' and name == 'at':
+            def at(eng, args, kwargs, st, node):
+                st.trace.append(('lookup-desc', tuple(args)))
+                return [(st, NONE if desc_kind == 'none' else V('obj', oid='desc'))]
+            return [(st, V('func', py=('spec', at)))]
+        if obj.k == 'obj' and obj.oid == 'desc':
+            if name == 'has_gate':
+                return [(st, vbool(z3.Bool('desc.has_gate')))]
+            if name == 'keep_gate':
+                return [(st, vbool(z3.Bool('desc.keep_gate')))]
+            if name == 'control_names':
+                return [(st, names_seq(''))]
+        if obj.k == 'seq' and name == 'remove' and (obj.extra.get('names') or (
+                obj.extra.get('slice_of') and obj.extra['slice_of'][0].get('names'))):
+            def rm(eng, args, kwargs, st, node):
+                st.trace.append(('remove-name', args[0]))
+                return [(st, NONE)]
+            return [(st, V('func', py=('spec', rm)))]
+        if obj.k == 'list' and name == 'extend':
+            def ext(eng, args, kwargs, st, node):
+                st.trace.append(('extend', args[0]))
+                return [(st, NONE)]
+            return [(st, V('func', py=('spec', ext)))]
+        if is_ev(obj) and name == '_default_msg_params':
+            def dflt(eng, args, kwargs, st, node):
+                r = V('obj', oid='default-params')
+                st.trace.append(('default-params', r))
+                return [(st, r)]
+            return [(st, V('func', py=('spec', dflt)))]
+        return None
+    return h
+
+
+def mp_getitem(eng, obj, idx, st, node):
+    if is_ev(obj) and idx.k == 'str' and idx.py is not None:
+        for e in reversed(st.trace):
+            if e[0] == 'set' and e[1] == idx.py:
+                return [(st, e[2])]                       # what was stored under that key a moment ago
+    return None
+
+
+def mp_since(trace):
+    idx = -1
+    for i, e in enumerate(trace):
+        if e[0] == 'loop-head':
+            idx = i
+    return trace[idx + 1:] if idx >= 0 else None
+
+
+def mp_pass(c, L):
+    ev = mp_since(c.trace)
+    if not ev:
+        return z3.BoolVal(True)
+    ev = [e for e in ev if e[0] in ('extend', 'set', 'remove-name')]
+    name = z3.Select(CTL, L.i - 1)
+    if not ev:
+        return z3.Not(HASK(name))                                        # a control the event does not define: skipped
+    if len(ev) != 1 or ev[0][0] != 'extend':
+        return z3.BoolVal(False)
+    pair = ev[0][1]
+    ok = pair.k == 'list' and pair.items is not None and len(pair.items) == 2 and all(x.k == 'any' for x in pair.items)
+    if not ok:
+        return z3.BoolVal(False)
+    return z3.And(HASK(name), pair.items[0].z == name, pair.items[1].z == RESK(name))   # (name, the event's value)
+
+
+def mp_post(state, desc_kind):
+    def post(c):
+        t = c.trace
+        sets = {e[1]: e[2] for e in t if e[0] == 'set'}
+        r = c.resultv
+        if state == 'cached':
+            reused = r.k == 'obj' and r.oid == 'cached-params'
+            if reused:
+                return z3.And(z3.Not(z3.Bool('res.is_playing')), z3.BoolVal(not sets))    # kept as is, nothing touched
+            if not [e for e in t if e[0] == 'lookup-desc']:
+                return z3.BoolVal(False)
+        if desc_kind == 'none':
+            d = [e for e in t if e[0] == 'default-params']
+            return z3.BoolVal(len(d) == 1 and r is d[0][1] and sets.get('msg_params') is d[0][1])
+        heads = [e for e in t if e[0] == 'loop-head']
+        rem = [e for e in t if e[0] == 'remove-name']
+        gate_removed = len(rem) == 1 and rem[0][1].k == 'str' and rem[0][1].py == 'gate'
+        ok = (bool(heads) and r.k == 'list' and sets.get('msg_params') is r                 # stored and returned
+              and sets.get('synth_desc') is not None and sets['synth_desc'].k == 'obj' and sets['synth_desc'].oid == 'desc'
+              and sets.get('has_gate') is not None and sets['has_gate'].k == 'bool' and len(rem) <= 1)
+        if not ok:
+            return z3.BoolVal(False)
+        return z3.And(sets['has_gate'].z == z3.Bool('desc.has_gate'),
+                      z3.BoolVal(bool(gate_removed)) == z3.And(z3.Bool('desc.has_gate'), z3.Not(z3.Bool('desc.keep_gate'))))
+    return post
+
+
+for state in ('fresh', 'cached'):
+    for desc_kind in ('none', 'desc'):
+        contract(F, 'ServerKeys._get_msg_params', props=('C14',), params={'self': 'self'},
+                 ensures=[('cached-or-defaults-or-(name,value)-for-exactly-the-controls-the-event-defines',
+                           mp_post(state, desc_kind))],
+                 loops={0: Loop(inv=mp_pass, kinds={'arg': 'any'})},
+                 hooks={'call': mp_call(state), 'contains': mp_contains, 'getattr': mp_getattr(desc_kind),
+                        'setitem': ne_setitem, 'getitem': mp_getitem},
+                 fields={'ServerKeys': {}}, class_modules={'ServerKeys': F}, native=False,
+                 note='the copy of the control names with "gate" removed is the same abstract sequence (the removal is a '
+                      'ghost event); the driver checks the gate control on real descriptions')
+        from vf.pyvc.spec import REGISTRY
+        key = '%s::ServerKeys._get_msg_params#%s-%s' % (F, state, desc_kind)
+        REGISTRY[key] = REGISTRY.pop('%s::ServerKeys._get_msg_params' % F)
+        REGISTRY[key].key = key
